@@ -39,6 +39,20 @@ def grid(ctx, per_problem=None):
                                                     "useful_life_at_arrival_distribution_c_0": [rng.choice([-1.0, 0.0, 0.5, 1.0]) for _ in range(m - 1)],
                                                     "useful_life_at_arrival_distribution_c_1": [rng.choice([-0.5, 0.0, 0.25]) for _ in range(m - 1)],
                                                     "variable_order_cost": dy(), "fixed_order_cost": dy(), "shortage_cost": dy(), "wastage_cost": dy(), "holding_cost": dy()}})
+    # directed corners, always in the grid: demand above the order limit with useful life >= 2 (delivery refusal, shortage and
+    # wastage all occur on some triple), every cost coefficient distinct so no two cost terms can be confused
+    out.append({"kind": "mirjalili", "params": {"max_demand": 6, "max_useful_life": 2, "max_order_quantity": 3, "weekday_demand_negbin_n": [3.5] * 7, "weekday_demand_negbin_delta": [5.7] * 7,
+                                                "useful_life_at_arrival_distribution_c_0": [0.5], "useful_life_at_arrival_distribution_c_1": [0.25],
+                                                "variable_order_cost": 1.0, "fixed_order_cost": 10.0, "shortage_cost": 20.0, "wastage_cost": 5.0, "holding_cost": 0.5}})
+    out.append({"kind": "mirjalili", "params": {"max_demand": 5, "max_useful_life": 3, "max_order_quantity": 2, "weekday_demand_negbin_n": [2.2, 3.5, 5.5, 11.0, 2.2, 3.5, 5.5],
+                                                "weekday_demand_negbin_delta": [0.5, 3.3, 5.7, 6.9, 0.5, 3.3, 5.7],
+                                                "useful_life_at_arrival_distribution_c_0": [1.0, 0.5], "useful_life_at_arrival_distribution_c_1": [0.0, -0.5],
+                                                "variable_order_cost": 0.25, "fixed_order_cost": 3.0, "shortage_cost": 7.0, "wastage_cost": 2.0, "holding_cost": 1.0}})
+    for pol in ("fifo", "lifo"):
+        out.append({"kind": "de_moor", "params": {"max_demand": 7, "demand_gamma_mean": 2.5, "demand_gamma_cov": 0.5, "max_useful_life": 3, "lead_time": 2, "max_order_quantity": 2,
+                                                  "variable_order_cost": 3.0, "shortage_cost": 5.0, "wastage_cost": 7.0, "holding_cost": 1.0, "issue_policy": pol}})
+    out.append({"kind": "hendrix", "params": {"max_useful_life": 2, "max_order_quantity_a": 2, "max_order_quantity_b": 3, "demand_poisson_mean_a": 2.0, "demand_poisson_mean_b": 5.0,
+                                              "substitution_probability": 0.25, "variable_order_cost_a": 0.5, "variable_order_cost_b": 0.25, "sales_price_a": 1.0, "sales_price_b": 2.0}})
     return out
 
 
